@@ -79,6 +79,9 @@ def word_level(R):
     w = R.mc("MC_C04w", "MC_C04w_weak.cfg", timeout=900, expect_ok=False)
     if w["invariant"] != "Inv":
         raise vlib.Inconclusive("self-test: MC_C04w with the carry conditions dropped from Pre must violate Inv:\n" + vlib.tail(w["out"]))
+    nv = R.mc("MC_C04w", "MC_C04w_nonvac.cfg", timeout=900, expect_ok=False)
+    if nv["invariant"] != "NonVac":
+        raise vlib.Inconclusive("self-test: MC_C04w must reach states with Pre true and every limb beyond the nominal width:\n" + vlib.tail(nv["out"]))
     # shadow build from the current tree
     gen = os.path.join(R.scratch, "shadow_field_u64.go")
     p = subprocess.run([sys.executable, os.path.join(vlib.ROOT, "tools", "shadowgen.py"), vlib.REPO, gen], capture_output=True, text=True)
